@@ -1,7 +1,7 @@
 ---------------------------- MODULE TraceForward ----------------------------
 (* Trace validation for C39. One ndjson record per walk replayed on the REAL forward.Manager
    (harness internal/forward/zz_verif_c39_test.go):
-     run, ops: << [k, l] >>, obs: << [conf, handlers: <<[id, dest, running, run]>>, started, strays: <<id>>] >>
+     run, ops: << [k, l] >>, obs: << [conf, handlers: <<[id, dest, running, run, loops]>>, started, strays: <<id>>] >>
    ops[1] is Initialize; obs[k] is what the harness observed after ops[k] returned.
    TLC evaluates the statement's formulas (Forward.tla layer 2) on every observation / every reload
    step, and separately whether the run is the behaviour of layer 1 (conformance, DRIFT only). *)
@@ -44,7 +44,6 @@ SpecRun(s, r, k, ok) ==
                     [] op.k = "Reload"     -> ReloadF(s, op.l)
              o == AsObs(r.obs[k])
          IN SpecRun(n, r, k + 1, ok /\ o.handlers = n.handlers /\ o.strays = {} /\ o.started = n.started
-                                    /\ r.obs[k].mstarted = n.started
                                     /\ \A i \in 1..Len(r.obs[k].pos) : r.obs[k].pos[i] = i)
 
 Conforms(r) == SpecRun(InitF(<<>>), r, 1, TRUE)
